@@ -117,6 +117,15 @@ def _ungrouped_task(task, p):
             continue
         exp = np.asarray(st.gammastd_yxt(x, ND, inside[0], inside[-1] + 1)).reshape(5, n)
         got = res.values.reshape(5, n)
+        # the kernel on every pixel alone and on the cube with its pixels in reverse order: nothing a pixel needs may
+        # carry over to the pixels processed after it
+        alone = np.concatenate([np.asarray(st.gammastd_yxt(x[r:r + 1].copy(), ND, inside[0], inside[-1] + 1)).reshape(1, n) for r in range(5)])
+        rev = np.asarray(st.gammastd_yxt(x[::-1].copy(), ND, inside[0], inside[-1] + 1)).reshape(5, n)[::-1]
+        for what, other in (("each pixel alone", alone), ("the pixels in reverse order", rev)):
+            if not np.array_equal(other, exp):
+                r = int(np.nonzero((other != exp).any(axis=1))[0][0])
+                p.violation(sub, dict(key, what=what), case, f"gammastd_yxt, window steps {inside} on axis days {days}: pixel {PIX[r, list(positions)].tolist()} inside the cube -> "
+                                                             f"{exp[r].tolist()}, with {what} -> {other[r].tolist()}")
         # the same request on the dask-backed cube (every third window): what is computed later must still use
         # the window that was asked for
         nvalid_windows += 1
